@@ -25,6 +25,8 @@ def cases(ctx):
 def run(ctx):
     ctx.require('view-checks')
     ctx.require('fresh-handle-checks')
+    ctx.require('refused-init:exists')
+    ctx.require('refused-init:hash_type')
     ctx.map(histories.run_history, cases(ctx))
 
 
